@@ -1003,6 +1003,28 @@ pub fn terminal_consistency(o: &Outcome) -> Option<(String, serde_json::Value)> 
   None
 }
 
+/// C15 (thread part): `hot.finalize_threads(f)` subscribed by a subscribe_on task on a worker
+/// thread while another thread unsubscribes: if the inner subscription was ever made (the spy
+/// above finalize saw it) and the handle was unsubscribed, the callback ran exactly once
+pub fn finalize_behind_subscribe_on(o: &Outcome) -> Option<(String, serde_json::Value)> {
+  let fins = o.evs.iter().filter(|e| matches!(e.k, K::Mark("finalize", _))).count();
+  if fins > 1 {
+    return Some(("finalize_twice".into(), json!({"finalize_calls": fins})));
+  }
+  let subscribed = o.evs.iter().any(|e| e.id / 1000 == 47 && matches!(e.k, K::Subscribed));
+  let unsub_ret = o.evs.iter().any(|e| matches!(e.k, K::Mark("unsub_ret", _)));
+  if subscribed && unsub_ret && fins == 0 {
+    return Some((
+      "finalize_missing".into(),
+      json!({"why": "the subscribe_on task subscribed finalize's upstream, the returned handle was unsubscribed (the call returned), everything scheduled has run, and the callback never ran"}),
+    ));
+  }
+  if !subscribed && fins > 0 {
+    return Some(("finalize_without_subscription".into(), json!({"why": "the callback ran although the inner subscription was never made"})));
+  }
+  None
+}
+
 /// C02: nothing *begins* on a probe after its unsubscribe() returned
 pub fn after_unsub(o: &Outcome) -> Option<(String, serde_json::Value)> {
   for e in &o.evs {
@@ -1417,6 +1439,16 @@ pub fn random_scen(r: &mut Rng, family: usize) -> Scen {
       }
       Scen { name: "buffer[two threads]", kind: Kind::Pipe(two_input("buffer")), n_hot: 2, initial_subs: 1, threads, workers: 0, worker_spins: 0 }
     }
+    27 => {
+      // finalize behind subscribe_on: the subscribing task runs on a worker while another
+      // thread unsubscribes the returned handle
+      let mut prod: Vec<TOp> = (0..r.below(3)).map(|_| TOp::Next(0)).collect();
+      if r.chance(1, 3) {
+        prod.push(if r.chance(1, 2) { TOp::Complete(0) } else { TOp::Error(0) });
+      }
+      let chain = Chain::new(Src::Hot(0), vec![Op::Finalize(600), Op::Spy(47), Op::SubscribeOn]);
+      Scen { name: "finalize+subscribe_on+workers", kind: Kind::Pipe(chain), n_hot: 1, initial_subs: 1, threads: vec![prod, vec![TOp::Unsub(0)]], workers: 1, worker_spins: 120 }
+    }
     24 | 25 => {
       // more rate limiters whose timer tasks run on a worker thread
       let (name, op): (&'static str, Op) = if family == 24 {
@@ -1477,7 +1509,7 @@ pub fn random_scen(r: &mut Rng, family: usize) -> Scen {
   }
 }
 
-pub const FAMILIES: usize = 27;
+pub const FAMILIES: usize = 28;
 
 pub fn strategy_for(r: &mut Rng) -> Strategy {
   match r.below(4) {
@@ -1873,7 +1905,7 @@ pub fn miri_main(cfg: &Cfg) {
     "C12" => vec![1],
     "C15" => vec![10],
     // worker families spin on the pool: under the interpreter they mostly hit the wall-clock watchdog
-    _ => (0..FAMILIES).filter(|f| !matches!(f, 12 | 13 | 15..=18 | 21..=25)).collect(),
+    _ => (0..FAMILIES).filter(|f| !matches!(f, 12 | 13 | 15..=18 | 21..=25 | 27)).collect(),
   };
   for i in 0..cfg.n(2, 3) {
     // every other scenario is the merge_all family (queued inners + unsubscribe: the richest lock graph)
